@@ -246,6 +246,7 @@ func streamHCheck(t *testing.T, o *Out) {
 	defer func() { checkgroup.DefaultFactory = oldFactory }()
 	objs := []string{"a", "b", "c", "d", "ü:#@", ""}
 	subs := []string{"alice", "bob", "eve", "", "Group:zz#members", "Group:a#members"}
+	var stored []*ketoapi.RelationTuple // what the current block wrote
 	for i := 0; i < n; i++ {
 		if i%10 == 0 {
 			// the full configuration while the state is written (and for most blocks of ten
@@ -296,6 +297,7 @@ func streamHCheck(t *testing.T, o *Out) {
 			if err := env.reg.RelationTupleManager().WriteRelationTuples(env.ctx, its...); err != nil {
 				t.Fatal(err)
 			}
+			stored = ts
 			ta := &ketoapi.RelationTuple{Namespace: "Team", Object: "a", Relation: "members", SubjectID: &alice}
 			if it, err := env.reg.ReadOnlyMapper().FromTuple(env.ctx, ta); err == nil {
 				// warm whatever the read path remembers about the namespace Team
@@ -368,6 +370,10 @@ func streamHCheck(t *testing.T, o *Out) {
 			case j > 0 && r.Intn(3) == 0:
 				// duplicates within one batch
 				tt = entries[r.Intn(j)].t
+			case r.Intn(5) == 0 && len(stored) > 0:
+				// a relationship that is stored verbatim (a direct hit: what a depth limit of 1 still
+				// has to apply to)
+				tt = stored[r.Intn(len(stored))]
 			case r.Intn(3) == 0:
 				// entries that share intermediate subject sets
 				al := "alice"
